@@ -522,6 +522,14 @@ theorem first_required_property_step (n : Nat) (loc : Loc) (t1 : Schema) (props2
   unfold addedStep
   simp [h1, hc, hl, hr, Outcome.bind]
 
+/-- the premises of `first_required_property_step` are satisfiable: `{type: object}` gains the required string property `w` -/
+example : ∃ c, addChildDiffNode 3 {} "w" { type := ["string"] } = .ok c ∧
+    addedStep 3 {} { type := ["object"] } [("w", { schema := { type := ["string"] }, required := true })] [] ("w", { type := ["string"] })
+      = .ok [(c, Code.AddedRequiredProperty)] := by
+  refine ⟨_, rfl, ?_⟩
+  exact first_required_property_step 3 {} { type := ["object"] } _ [] ("w", { type := ["string"] }) rfl
+    { schema := { type := ["string"] }, required := true } rfl rfl _ rfl
+
 /-- the guard fires only when BOTH sides declare no properties -/
 theorem compareProperties_guard (cx : Ctx) (cmp : Cmp) (n : Nat) (loc : Loc) (t1 t2 : Schema) (st : St)
     (h : t1.hasProps = false ∧ t2.hasProps = false) : compareProperties cx cmp n loc t1 t2 st = .ok st := by
